@@ -97,12 +97,28 @@ def has_raw(e):
     return False
 
 
-def g_rule(r):
+def nlits_of(case, boreal):
+    """per rule (declaration order) the number of literals of each string, from the harness' "desc" (strings in
+    compilation order: those of global rules first); zeros when the description is missing"""
+    desc = (boreal or {}).get("desc") or []
+    order = [r for r in case["rules"] if r["global"]] + [r for r in case["rules"] if not r["global"]]
+    total = sum(len(r["strings"]) for r in order)
+    out, k = {}, 0
+    for r in order:
+        n = len(r["strings"])
+        out[r["id"]] = [d[0] for d in desc[k:k + n]] if len(desc) == total else [0] * n
+        k += n
+    return out
+
+
+def g_rule(r, nlits=None):
     pr = Printer([s["name"] for s in r["strings"]])
     c = tup(r["cond"])
-    return ("{| c_ns := %d%%nat; c_id := %d; c_global := %s; c_private := %s; c_strings := %s; c_cond := %s |}"
+    nl = (nlits or {}).get(r["id"]) or [0] * len(r["strings"])
+    return ("{| c_ns := %d%%nat; c_id := %d; c_global := %s; c_private := %s; c_strings := %s; c_nlits := %s; "
+            "c_cond := %s |}"
             % (r["ns"], r["id"], gbool(r["global"]), gbool(r["private"]), glist(g_string(s) for s in r["strings"]),
-               "None" if has_raw(c) else "(Some %s)" % pr.g(c)))
+               glist(gN(x) for x in nl), "None" if has_raw(c) else "(Some %s)" % pr.g(c)))
 
 
 def g_obs(case, scan, default=None):
@@ -723,8 +739,8 @@ class C07(Prop):
     NEEDS_HARNESS = False          # own crate (harness_yara), built in execute()
     KF = {K_FIXED_OFFSET: "C07-fixed-offset-listing", K_START_POS: "C07-start-position", K_FULLWORD_LEN: "C07-fullword-single-length",
           K_GLOBAL_REFS: "C07-global-refs-ordinary", K_LIST_UNDEF: "C07-list-undefined-element",
-          K_HIGH_BYTE_ORDER: "C07-string-order-high-bytes", K_UNDEF_QUANT: "C07-undefined-quantifier",
-          K_EMPTY_CLASS: "C07-empty-class", K_SPAN_PANIC: "C07-regex-span-panic"}
+          K_HIGH_BYTE_ORDER: "C07-string-order-high-bytes", K_UNDEF_QUANT: "C07-undefined-quantifier"}
+    # classes 17 (C07-empty-class, fixed 861b829) and 18 (C07-regex-span-panic, fixed c526a27) are no longer produced
     RULE = ("generated rule files of the shared dialect: 1-4 rules over 1-2 namespaces (global / private / plain, "
             "references to earlier rules and to global rules), 0-3 strings per rule drawn from the C01 text generator "
             "(ascii wide nocase fullword xor base64 shapes), the C02 hex generator (masks, negations, jumps, "
@@ -841,7 +857,11 @@ class C07(Prop):
         for r in case["rules"]:
             for s in r["strings"]:
                 ctx.count("string=" + s["kind"])
-        return "C07_case %s %s %s %s %s %s" % (glist(g_rule(r) for r in case["rules"]), ins, yobs, bobs, bdef,
+        nl = nlits_of(case, b)
+        for r in case["rules"]:
+            for x in nl[r["id"]]:
+                ctx.count("literals=%s" % ("0" if x == 0 else "1" if x == 1 else ">1"))
+        return "C07_case %s %s %s %s %s %s" % (glist(g_rule(r, nl) for r in case["rules"]), ins, yobs, bobs, bdef,
                                                gbool(not errs))
 
     def nontrivial(self, case, out):
